@@ -140,7 +140,7 @@ def run(ctx):
     ctx.cov.update({
         "evaluations": len(rows),
         "distinct_nontrivial": len(nontriv),
-        "rule": "exhaustive product {29 structured documents: 1-3 operations of mixed kinds, anonymous/named, with/without required variables, parse errors, validation errors, lone-anonymous and duplicate-name violations, empty and fragment-only documents} x operationName {absent, each name, unknown} x 10 carriers (GET, POST json, application/graphql raw/prefixed/escaped, urlencoded json/plain/bare/escaped, multipart) x 10 Accept sets, on the full transport list; ResponseHeaders {5 content types x other headers} x Accept x carriers; single-transport and empty servers; method x request content type x Upgrade grid; every decode failure; APQ miss/hit/mismatch; resolver errors; seeded random structured and malformed streams with shuffled/duplicated/dropped transports. Non-trivial = distinct abstract request other than a default-configured 200 data answer without Accept",
+        "rule": "exhaustive product {32 structured documents: 1-3 operations of mixed kinds, anonymous/named, with/without required variables, parse errors, validation errors, lone-anonymous and duplicate-name violations, empty and fragment-only documents} x operationName {absent, each name, unknown} x 10 carriers (GET, POST json, application/graphql raw/prefixed/escaped, urlencoded json/plain/bare/escaped, multipart) x 10 Accept sets, on the full transport list; ResponseHeaders {5 content types x other headers} x Accept x carriers; single-transport and empty servers; method x request content type x Upgrade grid; every decode failure; APQ miss/hit/mismatch; resolver errors; seeded random structured and malformed streams with shuffled/duplicated/dropped transports. Non-trivial = distinct abstract request other than a default-configured 200 data answer without Accept",
         "input_distribution": dict(branch),
         "correspondence_divergences": div,
         "samples": [s[:3] for s in samples if s],
